@@ -225,7 +225,7 @@ func propC14(c *Ctx, r *Report) {
 		{"zero pUSD rate skips everything from 2.0.2", tick["XBT"], cUint(5), cUint(100), cUint(0), v202 + 144, false},
 		{"zero-rate asset still valued before 2.0.2 (Convert rejects it)", tick["XBT"], cUint(5), cUint(0), cUint(100), v202 - 100, true},
 	} {
-		sc := &Scenario{Params: map[string]AVal{"height": hconst(cs.h)}, Phis: map[string]AVal{"i": cInt(cs.i)},
+		sc := &Scenario{Params: map[string]AVal{"height": hconst(cs.h)}, Phis: map[string]AVal{"type:fat2.PTicker": cInt(cs.i)},
 			Paths:   map[string]AVal{"pegnet.BalancesPair.Balances[]": cs.bal},
 			Lookups: map[string]AVal{"rates[]": cs.rate, fmt.Sprintf("rates[%d]", tick["USD"]): cs.usd},
 			MaxDepth: 0, AllErrorsNil: true}
